@@ -1020,6 +1020,8 @@ fn distribute_item_space_to_base_size(
         );
 
         // 3. Distribute remaining span beyond limits (if any)
+        #[cfg(taffy_verif)]
+        crate::verif_hooks::note_track_threshold(extra_space, THRESHOLD);
         if extra_space > THRESHOLD {
             // When accommodating minimum contributions or accommodating min-content contributions:
             //   - any affected track that happens to also have an intrinsic max track sizing function;
@@ -1401,6 +1403,8 @@ fn distribute_space_up_to_limits(
             // Only tracks that are still growable (the ones counted in `track_distribution_proportion_sum`) may receive
             // space: the THRESHOLD slack must not leak into tracks that already sit at their limit (fixed tracks, gutters)
             let is_growable = track_affected_property(track) + track.item_incurred_increase < track_limit(track);
+            #[cfg(taffy_verif)]
+            crate::verif_hooks::note_track_threshold(track_affected_property(track) + increase - track_limit(track), THRESHOLD);
             if increase > 0.0
                 && is_growable
                 && track_affected_property(track) + increase <= track_limit(track) + THRESHOLD
@@ -1411,6 +1415,8 @@ fn distribute_space_up_to_limits(
         }
     }
 
+    #[cfg(taffy_verif)]
+    crate::verif_hooks::note_track_threshold(space_to_distribute, THRESHOLD);
     space_to_distribute
 }
 
